@@ -23,6 +23,7 @@ def base_env(extra=None):
     e['ASAN_OPTIONS'] = ASAN_OPTS
     e['UBSAN_OPTIONS'] = 'print_stacktrace=1'
     e['VERIF_WORK'] = WORK
+    e.setdefault('VERIF_CASE_CPU_S', '180')
     if extra:
         e.update(extra)
     return e
@@ -194,6 +195,8 @@ def run_pbt_shards(prop, bins, n_total, size, shards, tier, extra_env=None, prop
 def _run_pbt_round(prop, bins, n_total, size, shards, tier, extra_env, prop_arg, timeout, seed_offset):
     os.makedirs(WORK, exist_ok=True)
     per = max(1, n_total // shards)
+    if timeout is None:
+        timeout = 4 * 3600 if tier == 'thorough' else 1800     # safety net only (a stuck shard is killed and counted, never a violation)
     s0 = seed()
     opens = open_findings_env()
     procs = []
